@@ -14,8 +14,8 @@ func init() {
 	Registry["C15"] = c15
 	Metas["C15"] = Meta{Level: "other", NeedCG: true,
 		Technique: "static analysis: edge-dominance of the vote checks before counting, single-writer/once-only typestate of maj23, counted-once tally sites, exhaustive threshold evaluation, effect ordering around the quorum crossing",
-		Explain: "Static analysis of gemmill/types/vote_set.go and VerifyCommit. Decided on every path: (R1) addVerifiedVote is reached only after height/round/type equality, validator lookup by the vote's own index, address equality with that validator, duplicate miss and signature verification under that validator's key, and receives that validator's power; (R2) maj23 has a single store, under maj23==nil and the quorum crossing, and the crossing compares the sum before and after the vote was added; the majority block's votes are copied unconditionally into the canonical array; (R3) power is counted once per validator; (R4) the threshold predicate (shared with C01-R1); (R5) conflicting votes are surfaced as ErrVoteConflictingVotes; (R6) MakeCommit requires a majority and copies the canonical array; VerifyCommit's check list (shared with C02-R4). (R9) a per-block tally is inserted only when absent and SetRound creates every round up to the target. NOT decided: equivalence with the definition for every vote stream.",
-		Assume: []string{"signatures are deterministic (the code's own NOTE)", "PubKey.VerifyBytes is sound"},
+		Explain:   "Static analysis of gemmill/types/vote_set.go and VerifyCommit. Decided on every path: (R1) addVerifiedVote is reached only after height/round/type equality, validator lookup by the vote's own index, address equality with that validator, duplicate miss and signature verification under that validator's key, and receives that validator's power; (R2) maj23 has a single store, under maj23==nil and the quorum crossing, and the crossing compares the sum before and after the vote was added; the majority block's votes are copied unconditionally into the canonical array; (R3) power is counted once per validator; (R4) the threshold predicate (shared with C01-R1); (R5) conflicting votes are surfaced as ErrVoteConflictingVotes; (R6) MakeCommit requires a majority and copies the canonical array; VerifyCommit's check list (shared with C02-R4). (R9) a per-block tally is inserted only when absent and SetRound creates every round up to the target. NOT decided: equivalence with the definition for every vote stream.",
+		Assume:    []string{"signatures are deterministic (the code's own NOTE)", "PubKey.VerifyBytes is sound"},
 	}
 }
 
